@@ -314,7 +314,13 @@ def c03_mute(ctx):
               'a line is muted iff the condition stack is muted when it is reached', '; '.join(unparse(x) for x in ms))
 
 
-RULES = [c03_1, c03_2, c03_3, c03_4, c03_6, c03_mute]
+def c03_files(ctx):
+    """Whether a line is muted is decided per file: every file starts with a condition stack of its own (C17.5)."""
+    from rules.c17 import c17_5
+    c17_5(ctx)
+
+
+RULES = [c03_1, c03_2, c03_3, c03_4, c03_6, c03_mute, c03_files]
 
 _E = 'assembler/engine.py'
 _M = '__main__.py'
